@@ -68,6 +68,8 @@ def run_case(case, ctx):
     rng = ctx.rng("mirror", case["part"], case["i"])
     rows, cols = int(rng.integers(7, 24)), int(rng.integers(9, 30))
     nb = 1 if rng.random() < 0.8 else 3
+    if case["i"] == 1:
+        nb = 3  # directed constructor of the multiband classes (bands of the second image in another order)
     fill = [None, "mc-cnn", "sgm"][int(rng.integers(0, 3))]
     keys, params, info = pipes.random_pipeline(rng, rows, cols, validation=True, filling=fill if fill else False, max_post=3,
                                                allow_cbca=(nb == 1))
